@@ -18,7 +18,8 @@ RULE = ("generated base coolers (fixed and variable width, both modes) zoomified
         "base level digest == source, every derived level == ref_coarsen(base, r/base) computed directly from the base, "
         "schema validator on every level; CLI -r spellings (lists, N, B, <r>N, <r>B, 4DN, mixed case) expanded "
         "independently. Non-trivial: >= 1 derived level and base has pixels; distinct = (base, resolution set, options)")
-ASSUMPTIONS = ["the second base of a two-base run is produced by coarsen_cooler (checked by C08)",
+ASSUMPTIONS = ["a refused request has no effect on a multires file already present at the output path",
+               "the second base of a two-base run is produced by coarsen_cooler (checked by C08)",
                "refusal of a non-derivable set is judged by the raised error and by no multires file being left"]
 MIN_NONTRIVIAL = {"quick": 60, "thorough": 600}
 REQUIRED_PROBES = ["multiplier_sequence", "create_exit"]
@@ -27,7 +28,8 @@ REQUIRED_FEATURES = ["bases:1", "bases:2", "base:variable-width", "base:fixed-wi
                      "cli:spec:<r>B", "cli:spec:4DN", "cli:spec:list", "nproc>1",
                      "history:output-path-reused", "bases:mixed-value-dtypes", "cli:maxres-is-a-ladder-member",
                      "set:no-derived-level", "cli:base-is-level-of-mcool", "cli:base-in-subgroup-with-root-decoy",
-                     "bases:second-base-has-own-content",
+                     "bases:second-base-has-own-content", "set:non-derivable:below-every-base",
+                     "history:refused-request-onto-existing-mcool",
                      "bases:independent-2b-3b"]
 SHARD_TIMEOUT = {"quick": 1800, "thorough": 7200}
 
@@ -195,6 +197,8 @@ def api_case(ctx, shard, i, rng):
         bad = b * max(mults + [2]) + (1 if b > 1 or variable else 0)
         if bad % b == 0:
             bad = None
+        if b > 2 and rng.random() < 0.6:
+            bad = int(rng.integers(1, b))          # finer than every base: cannot be derived by aggregation either
         if bad is None:
             # base width 1: every integer is derivable; use a two-step set whose member is below the base
             nonderiv = False
@@ -237,7 +241,14 @@ def api_case(ctx, shard, i, rng):
         if len(set(res)) < len(res):
             c.feature("set:duplicates")
         if nonderiv:
-            c.feature("set:non-derivable")
+            c.feature("set:non-derivable", "set:non-derivable:below-every-base" if bad < b else "set:non-derivable:above")
+            older = None
+            if rng.random() < 0.5:
+                # history: a good multires file already sits at the output path; a refused request must leave it alone
+                cooler.zoomify_cooler(base_uri, out, [b * 2, b * 4], chunksize=10**6)
+                with h5py.File(out, "r") as f:
+                    older = (sorted(f["resolutions"].keys()), dict(f.attrs).get("format"))
+                c.feature("history:refused-request-onto-existing-mcool")
             raised = None
             try:
                 cooler.zoomify_cooler(base_uris, out, res, chunksize=cs, nproc=nproc)
@@ -245,8 +256,17 @@ def api_case(ctx, shard, i, rng):
                 raised = str(e)
             c.check(raised is not None, "non-derivable-resolution-accepted",
                     f"resolution set {res} with base {sorted(bases)} was not refused")
-            made = os.path.exists(out) and h5py.is_hdf5(out) and cooler.fileops.is_multires_file(out)
-            c.check(not made, "refused-zoomify-left-multires-file", "a refused zoomify left a multires file")
+            if older is None:
+                made = os.path.exists(out) and h5py.is_hdf5(out) and cooler.fileops.is_multires_file(out)
+                c.check(not made, "refused-zoomify-left-multires-file", "a refused zoomify left a multires file")
+            elif raised is not None:
+                now = None
+                if os.path.exists(out) and h5py.is_hdf5(out):
+                    with h5py.File(out, "r") as f:
+                        now = (sorted(f["resolutions"].keys()) if "resolutions" in f else [], dict(f.attrs).get("format"))
+                c.check(now == older and cooler.fileops.is_multires_file(out), "refused-zoomify-changed-existing-output",
+                        f"the request was refused ({raised[:60]}), but the multires file that was at the output path "
+                        f"before (levels, format tag = {older}) is now {now}")
             c.nontrivial("nonderiv", repr(bt), tuple(res))
             return
         if rng.random() < 0.35:
